@@ -1741,11 +1741,20 @@ class DocutilsRenderer(RendererProtocol):
             return ([warn_node] if warn_node else []) + messages
 
         if issubclass(directive_class, Include):
-            # this is a Markdown only option,
-            # to allow for altering relative image reference links
-            directive_class.option_spec["relative-images"] = directives.flag
-            directive_class.option_spec["relative-docs"] = directives.path
-            directive_class.option_spec["heading-offset"] = directives.nonnegative_int
+            # these are Markdown only options,
+            # to allow for altering relative image reference links.
+            # They are added on a subclass, so that the docutils class
+            # (shared with every rST parse in the process) is left unmodified
+
+            class MystInclude(directive_class):  # type: ignore[valid-type,misc]
+                option_spec = {
+                    **(directive_class.option_spec or {}),
+                    "relative-images": directives.flag,
+                    "relative-docs": directives.path,
+                    "heading-offset": directives.nonnegative_int,
+                }
+
+            directive_class = MystInclude
 
         try:
             parsed = parse_directive_text(
